@@ -66,6 +66,34 @@ def _mark_fragile(stmts, draw):
 
 
 @st.composite
+def text_cases(draw):
+    """Steps whose results already are text and are stored with the SDK's PassThroughSerDes: the recorded payload is the
+    value itself (text that merely looks like JSON included) and every replay must hand exactly that string back.
+    Non-empty text only: the wire form of an update has no representation for an empty payload (it is omitted, C20's
+    stated exemption 'empty == absent'), so a serializer producing "" is outside what the protocol can record."""
+    txt = st.sampled_from([" ", "x", "0", "null", "\"q\"", "{}"])
+
+    def tstep():
+        return {"op": "step", "beh": {"kind": "ret", "v": draw(txt)}, "sem": draw(st.sampled_from(["least", "most"])), "retry": {"kind": "none"}, "serdes": "passthrough"}
+
+    body = []
+    for _ in range(draw(st.integers(1, 3))):
+        k = draw(st.sampled_from(["step", "step", "child", "parallel"]))
+        if k == "step":
+            body.append(tstep())
+        elif k == "child":
+            body.append({"op": "child", "body": [tstep(), {"op": "wait", "secs": 1}] if draw(st.booleans()) else [tstep()]})
+        else:
+            body.append({"op": "parallel", "branches": [[tstep()], [tstep(), {"op": "wait", "secs": 1}]], "cfg": {"completion": {"min": None, "tol": 2, "pct": None}}})
+        if draw(st.integers(0, 2)) > 0:
+            body.append({"op": "wait", "secs": 1})
+    body.append({"op": "wait", "secs": 1})
+    body.append(draw(G.steps(allow_fail=False)))
+    return {"prog": {"body": body}, "backend": draw(G.backend_cfgs()), "plan": {"crashes": draw(G.crash_plans(max_crashes=1))},
+            "sched": draw(G.schedules()), "line": []}
+
+
+@st.composite
 def fragile_cases(draw):
     """Programs whose operations use a custom (schema-checking) serializer that stops accepting the recorded payloads
     from invocation k on: a completed operation whose payload cannot be read back must fail, never run again."""
@@ -148,6 +176,7 @@ def shard(ctx):
     b = ctx.budget
     WC.run_generated(ctx, cases(), PROPS, n_cases=b["random_cases"], nontrivial=nontrivial, classes=classes)
     WC.run_generated(ctx, fragile_cases(), PROPS, n_cases=max(10, b["random_cases"] // 3), nontrivial=nontrivial, classes=classes, seed_offset=3)
+    WC.run_generated(ctx, text_cases(), PROPS, n_cases=max(10, b["random_cases"] // 6), nontrivial=nontrivial, classes=lambda r, c: ["text-results-passthrough-serializer"] + classes(r, c), seed_offset=4)
     # exhaustive single-crash enumeration for a number of generated programs
     from hypothesis import HealthCheck, Phase, given, seed, settings
 
